@@ -1651,8 +1651,6 @@ class EnumNode(AstNode):
 
         #        self.default_format(parent, format, kwargs)
         self.fmtdict = util.Scope(parent=parent.fmtdict)
-        if format:
-            self.fmtdict.update(format, replace=True)
 
         if not decl:
             raise RuntimeError("EnumNode missing decl")
@@ -1674,6 +1672,8 @@ class EnumNode(AstNode):
             fmt_enum.namespace_scope = (
                 fmt_enum.namespace_scope + fmt_enum.cxx_class + "::"
             )
+        if format:
+            fmt_enum.update(format, replace=True)
 
         # Format for each enum member.
         # Compute all names first since any expression must be converted to 
@@ -1827,8 +1827,6 @@ class VariableNode(AstNode):
 
         #        self.default_format(parent, format, kwargs)
         self.fmtdict = util.Scope(parent=parent.fmtdict)
-        if format:
-            self.fmtdict.update(format, replace=True)
 
         if not decl:
             raise RuntimeError("VariableNode missing decl")
@@ -1859,6 +1857,8 @@ class VariableNode(AstNode):
         ntypemap = ast.typemap
         fmt_var.c_type = ntypemap.c_type
         fmt_var.cxx_type = ntypemap.cxx_type
+        if format:
+            fmt_var.update(format, replace=True)
 
         # Add to namespace
 
